@@ -182,6 +182,9 @@ func cmdCheck(args []string) int {
 	if spec.WorkerRules {
 		results = append(results, structuralWorkerObligations(P))
 	}
+	if fr := structuralFrozenObligations(P, C); fr != nil {
+		results = append(results, fr)
+	}
 	solveAll(exs, results, cfg)
 
 	// classify
